@@ -345,6 +345,7 @@ const (
 
 type vfSpec struct {
 	Name          string
+	AskTimeout    time.Duration // WithActorDefaultAskTimeout (0 = not set)
 	Children      []*vfSpec // spawned from OnLaunch of every incarnation
 	Strategy      int
 	Decisions     []vivid.SupervisionDecision // i-th call -> decision (last repeats)
@@ -386,6 +387,9 @@ func (w *vfWorld) newActor(spec *vfSpec) *vfActor {
 
 func (w *vfWorld) options(spec *vfSpec) []vivid.ActorOption {
 	opts := []vivid.ActorOption{vivid.WithActorName(spec.Name)}
+	if spec.AskTimeout > 0 {
+		opts = append(opts, vivid.WithActorDefaultAskTimeout(spec.AskTimeout))
+	}
 	if spec.Strategy != vfStratNone {
 		mk := vivid.SupervisionStrategyDecisionMakerFN(func(sc vivid.SupervisionContext) (vivid.SupervisionDecision, string) {
 			w.mu.Lock()
